@@ -58,6 +58,16 @@ Theorem C03_json_space : forall (pf : bytes -> option Z) vfail chunks evs e p,
 Proof. exact ParseSafety.C03_json_space. Qed.
 Print Assumptions C03_json_space.
 
+(* A sign without digits is no number: "-", "+", "[-]" and "[+]" are refused, for every float
+   oracle and every visitor behaviour (before the repair of reportNumber the lone sign was
+   delivered as the integer 0). *)
+From SF Require Json.AcceptedProofs.
+Theorem C03_json_lone_sign_rejected : forall (pf : bytes -> option Z) vfail b,
+  b = [45] \/ b = [43] \/ b = [91; 45; 93] \/ b = [91; 43; 93] ->
+  exists evs e p, jrun_parse pf vfail b = Ok (evs, e, p) /\ e <> jpnil.
+Proof. exact SF.Json.AcceptedProofs.C03_json_lone_sign_rejected. Qed.
+Print Assumptions C03_json_lone_sign_rejected.
+
 (* UBJSON parser model: never Panic, for every input, chunking and visitor-failure index
    (unconditional); never OutOfFuel unless the input contains a "$Z", "$T" or "$F" byte pair -
    the recorded finding F2, which is real: C03_ubj_zero_typed_refuted; retained state linear
